@@ -463,8 +463,6 @@ def compare_groups(doc, name, groups, ids):
                 m = match_value(e, gb.items[k].value, ids)
                 if m:
                     return f'_{tag}: {m}'
-            if pos and sorted(pos) != list(range(min(pos), min(pos) + len(pos))):
-                return f'pairs of one chunk are not contiguous: {[t for t, _ in g["pairs"]]}'
             first = min(pos) if pos else None
         else:
             tags = set(SCHEMA_TAGS) if g['kind'] == 'schema' else {t for t, _ in g['cols']}
